@@ -59,7 +59,8 @@ async def verbatim(n):
             wd = os.path.join(base_dir, w)
             os.makedirs(wd, exist_ok=True)
             env = {"SF_V": v, "SF_W": rng.choice(NASTY)}
-            cmd = ["printf", "'%s|%s|'", '"$SF_V"', '"$SF_W"', "&&", "pwd"]
+            # (${X-UNSET}: a variable exported with the EMPTY value is still a set variable)
+            cmd = ["printf", "'%s|%s|'", '"${SF_V-UNSET}"', '"${SF_W-UNSET}"', "&&", "pwd"]
             want = f"{env['SF_V']}|{env['SF_W']}|{wd}".strip()
             for name, c, loc in (("fresh process", local, lloc), ("persistent shell", conn, bloc)):
                 out = await asyncio.wait_for(c.run(location=loc, command=cmd, environment=env, workdir=wd, capture_output=True, timeout=20), 30)
@@ -75,6 +76,15 @@ async def verbatim(n):
             b = await asyncio.wait_for(local.run(location=lloc, command=cmd, environment=env, workdir=wd, capture_output=True, timeout=20), 30)
             if a != b:
                 return {"failure": "persistent shell differs from a fresh process", "step": i, "command": cmd, "persistent": a, "fresh": b}
+        # commands whose output is NOT captured: executed exactly once too (the end marker of the persistent shell is read in chunks of
+        # a few bytes here, so it always straddles read boundaries)
+        counter = os.path.join(base_dir, "count")
+        for i in range(3):
+            await asyncio.wait_for(conn.run(location=bloc, command=["sh", "-c", shlex.quote(f"echo x >> {shlex.quote(counter)}; echo some discarded output")],
+                                            capture_output=False, timeout=4), 30)
+            runs = len(open(counter).read().split())
+            if runs != i + 1:
+                return {"failure": "a command run without capturing its output was not executed exactly once", "executions_so_far": runs, "expected": i + 1}
         # large output through a fresh process (the pipe must be drained while waiting)
         big = await asyncio.wait_for(local.run(location=lloc, command=["head", "-c", "1048576", "/dev/zero", "|", "tr", "'\\0'", "x"], capture_output=True, timeout=30), 60)
         if big is None or len(big[0]) != 1048576 or big[1] != 0:
